@@ -368,21 +368,32 @@ where
         let offset = index
             .iter()
             .find(|record| record.reference_sequence_id().is_none())
-            .map(|record| SeekFrom::Start(record.offset()))
-            .unwrap_or(SeekFrom::End(0));
+            .map(|record| record.offset());
 
-        self.get_mut().seek(offset)?;
-
-        Ok(self.records(header).filter_map(|result| match result {
-            Ok(record) => {
-                if record.flags().is_unmapped() {
-                    Some(Ok(record))
-                } else {
-                    None
-                }
+        // Without an index record for unplaced records, there is nothing to read. (Seeking to the
+        // end of the file would skip the EOF container and make the record reader fail.)
+        let mut records = match offset {
+            Some(offset) => {
+                self.get_mut().seek(SeekFrom::Start(offset))?;
+                Some(self.records(header))
             }
-            Err(e) => Some(Err(e)),
-        }))
+            None => None,
+        };
+
+        Ok(
+            std::iter::from_fn(move || records.as_mut()?.next()).filter_map(
+                |result| match result {
+                    Ok(record) => {
+                        if record.flags().is_unmapped() {
+                            Some(Ok(record))
+                        } else {
+                            None
+                        }
+                    }
+                    Err(e) => Some(Err(e)),
+                },
+            ),
+        )
     }
 }
 
@@ -403,5 +414,32 @@ where
                 result.map(|record| Box::new(record) as Box<dyn sam::alignment::Record>)
             }),
         )
+    }
+}
+
+#[cfg(test)]
+mod tests {
+    use super::*;
+
+    #[test]
+    fn test_query_unmapped_without_an_unmapped_index_record() -> io::Result<()> {
+        let header = sam::Header::default();
+
+        let mut writer = crate::io::Writer::new(Vec::new());
+        writer.write_header(&header)?;
+        writer.try_finish(&header)?;
+        let src = writer.get_ref().clone();
+
+        let mut reader = Reader::new(io::Cursor::new(src));
+        let header = reader.read_header()?;
+
+        let index = crai::Index::default();
+        let records: Vec<_> = reader
+            .query_unmapped(&header, &index)?
+            .collect::<io::Result<_>>()?;
+
+        assert!(records.is_empty());
+
+        Ok(())
     }
 }
